@@ -12,7 +12,8 @@ import RuxModel.Model.Table
     ckeys                            -> cache keys, most recent first
     reopt                            -> ok | reject          (WithOptions after the routes exist)
 -/
-namespace Rux.Drv
+namespace Rux.Drv.RouteE
+open Rux.Drv
 
 structure RouteSt where
   rt : RouterM
@@ -121,4 +122,8 @@ def routeStep (st : RouteSt) : List String → RouteSt × String
 
 def routeEngine : Engine := { σ := RouteSt, init := RouteSt.init, step := routeStep }
 
+end Rux.Drv.RouteE
+
+namespace Rux.Drv
+export RouteE (routeEngine)
 end Rux.Drv
